@@ -28,4 +28,21 @@ let run inp obs : string option * string option =
      | Some e -> (Some e, None)
      | None -> (None, tie c got))
   | _ -> (Some "unparsable C07 case", None)
-let () = Evalreg.register "C07" run
+
+(* C07W: the path-bound field on a WebSocket call; first message = capture, whatever query and frame say *)
+let run_w inp obs : string option * string option =
+  match inp, obs with
+  | ["C07W"; capture; q; body], [o] ->
+    let cap = bytes_str (bytes_of_hex capture) in
+    let what = Printf.sprintf "WebSocket /c07w/{user_id} with capture %S, query key %s, competing fields in the first frame %s" cap q body in
+    (match String.split_on_char ',' o with
+     | [m1; m2] ->
+       let f m = match String.split_on_char '/' m with [u; t] -> (bytes_str (bytes_of_hex u), bytes_str (bytes_of_hex t)) | _ -> ("?", "?") in
+       let (u1, t1) = f m1 and (u2, t2) = f m2 in
+       if u1 <> cap then (Some (Printf.sprintf "%s: the first message reached the handler with user_id %S" what u1), None)
+       else if (q <> "text" && t1 <> "one") || t2 <> "two" then   (* a query key naming a field the path does not bind is not this property's subject *) (Some (Printf.sprintf "%s: texts %S, %S" what t1 t2), None)
+       else if u2 <> "second-frame" then (Some (Printf.sprintf "%s: the second message carries user_id %S, its frame said \"second-frame\"" what u2), None)
+       else (None, None)
+     | _ -> (Some (Printf.sprintf "%s: the handler did not receive the two messages (%s)" what o), None))
+  | _ -> (Some "unparsable C07W case", None)
+let () = Evalreg.register "C07" run; Evalreg.register "C07W" run_w
